@@ -2,9 +2,11 @@
 stays bounded, every ingested item has exactly one fate, toxic items are never recycled
 and reach on_toxic at most once."""
 import ast
+import contextlib
 import copy
 import dataclasses
 import heapq
+import io
 import datetime as _dt
 import itertools
 import logging
@@ -245,21 +247,141 @@ def has_secret(v, depth=0):
     return False
 
 
-def int_refs(values):
-    """item ids among recycled values (the scripted digesters return the id of the item as value)"""
-    return sorted({v for v in values if isinstance(v, int) and not isinstance(v, bool)})
+def int_refs(d):
+    """item ids the values of a recycled dict refer to (the scripted digesters return the id of the item as value; the
+    contents handed to the DEFAULT digesters carry the id of the item in what those digesters extract)"""
+    return sorted({valnum(v, k) for k, v in d.items()} - {-1})
+
+
+# keys the default digesters of lysosome.py recycle under (misfolded: 100/101, failed_op: 102 and 1000 + item id)
+DDKEYS = {"last_failed_input": 100, "last_parse_error": 101, "last_failure_context": 102}
+DDNAMES = ["last_failed_input", "last_parse_error", "last_failure_context"]
+ECOUNT = "error_count_E"
+PRUNING = ("force", "critical", "noisy")        # modes of the daemon call in which it prunes (= ingests one item)
+NOT_PRUNING = ("healthy", "accum", "tiny")
 
 
 def keynum(k):
-    if isinstance(k, str) and k.startswith("k") and k[1:].isdigit():
-        return int(k[1:])
+    if isinstance(k, str):
+        if k.startswith("k") and k[1:].isdigit():
+            return int(k[1:])
+        if k in DDKEYS:
+            return DDKEYS[k]
+        if k.startswith(ECOUNT) and k[len(ECOUNT):].isdigit():
+            return 1000 + int(k[len(ECOUNT):])
     return -1
 
 
-def valnum(v):
+def valnum(v, k=None):
+    """the item id a recycled value stands for (-1: none)"""
+    if isinstance(k, str) and k.startswith(ECOUNT):
+        # _digest_failed_op: {'error_count_<error_type>': 1}; the harness' error types are E<item id>
+        return keynum(k) - 1000 if (type(v) is int and v == 1 and keynum(k) >= 1000) else -1
     if isinstance(v, int) and not isinstance(v, bool):
         return v
+    if isinstance(v, list) and len(v) == 1 and type(v[0]) is int:      # content['raw_input'][:200]
+        return v[0]
+    if isinstance(v, str) and v.isdigit():                              # str(content['error'])[:200]
+        return int(v)
+    if isinstance(v, dict) and type(v.get("v")) is int and not v.get("secret"):   # content['context']
+        return v["v"]
     return -1
+
+
+def pairs(d):
+    return sorted((keynum(k), valnum(v, k)) for k, v in d.items())
+
+
+class _BoomSeq:
+    """a raw_input that cannot be sliced"""
+    def __init__(self, i):
+        self.i = i
+
+    def __getitem__(self, s):
+        raise RuntimeError(f"boom {self.i}")
+
+
+class _BoomDict(dict):
+    """a dict content whose .get raises"""
+    def get(self, *a):
+        raise RuntimeError(f"boom {self['v']}")
+
+
+class _Res:
+    """an orphaned resource with a cleanup() that returns / raises (caught and logged by _digest_orphaned)"""
+    def __init__(self, i, bad):
+        self.i, self.bad, self.cleaned = i, bad, 0
+
+    def cleanup(self):
+        self.cleaned += 1
+        if self.bad:
+            raise OSError(f"cleanup of {self.i} failed")
+
+
+class _BoomRes:
+    """an orphaned resource whose `cleanup` attribute cannot even be read"""
+    def __init__(self, i):
+        self.i = i
+
+    @property
+    def cleanup(self):
+        raise RuntimeError(f"boom {self.i}")
+
+
+def op_type(o):
+    return (o[1] if o[0] == "ingest" else 2 if o[0] == "ierr" else TOXIC if o[0] == "isens" else 1 if o[0] == "prune" else None)
+
+
+def eff_out(cfg, o, i):
+    """the outcome (None = raises | list of keys) of the digester of the item that operation o ingests as event i.
+    With scripted digesters: what the operation says.  With the DEFAULT digesters of lysosome.py (cfg['dd']) the outcome
+    is decided by the content, so what the operation says is projected on what a content can make them do (dd_content)."""
+    raw = o[3] if o[0] == "ingest" else o[2] if o[0] == "twin" else o[1]
+    if not cfg.get("dd"):
+        return raw
+    t = op_type(o)
+    if t == TOXIC:
+        return raw                       # _digest_toxic in both modes; on_toxic stays scripted
+    if o[0] == "ierr":
+        return [102, 1000 + i]           # ingest_error builds the content itself: error_type and context
+    if t == 1:
+        return []                        # _digest_expired
+    if t == 3:
+        return None if raw is None else []
+    if raw is None or not raw:
+        return raw
+    if t == 0:
+        return [100 + raw[0] % 2] if len(raw) == 1 else [100, 101]
+    return [1000 + i] if len(raw) == 1 else [102, 1000 + i]
+
+
+def dd_content(t, out, i):
+    """a content on which the default digester of type t has outcome `out` (as projected by eff_out)"""
+    if t == 0:
+        if out is None:
+            return {"v": i, "raw_input": _BoomSeq(i)}
+        if not out and i % 2:
+            return ("m", i)              # not a dict: nothing to extract
+        c = {"v": i}
+        if 100 in out:
+            c["raw_input"] = [i]
+        if 101 in out:
+            c["error"] = i
+        return c
+    if t == 1:
+        return {"v": i}
+    if t == 2:
+        if out is None:
+            return _BoomDict(v=i)
+        if not out:
+            return ("f", i)
+        c = {"v": i, "error_type": f"E{i}"}
+        if 102 in out:
+            c["context"] = {"v": i}
+        return c
+    if out is None:
+        return _BoomRes(i)
+    return {"v": i} if i % 3 == 0 else _Res(i, i % 3 == 2)
 
 
 class DiagLock(sched.SchedLock):
@@ -320,6 +442,11 @@ class Rig:
     def __init__(self, cfg):
         import operon_ai.organelles.lysosome as L
         self.L = L
+        self.cfg = cfg
+        self.dd = bool(cfg.get("dd"))           # the DEFAULT digesters of lysosome.py (digesters=None), on crafted contents
+        self.loud = bool(cfg.get("loud"))       # silent=False: every print path runs (stdout is captured by the caller)
+        self.daemon = None                      # AutophagyDaemon flushing into this lysosome (built on first use)
+        self.saved_ad = None
         lg = logging.getLogger(L.__name__)      # "Emergency digest failed ..." warnings: not to stderr
         if not lg.handlers:
             lg.addHandler(logging.NullHandler())
@@ -397,10 +524,31 @@ class Rig:
             if out is None:
                 raise RuntimeError(f"boom {i}")
 
+        def watch(orig):
+            """the default digester `orig`, observed: same parking point and call log as the scripted digester"""
+            def dgw(waste):
+                self.maybe_park()
+                i = self.event_of_call(waste)
+                try:
+                    res = orig(waste)
+                except Exception:
+                    self.calls.append((i, "dg", True))
+                    self.call_ops.append((i, True, getattr(self.tls, "op", None)))
+                    raise
+                self.calls.append((i, "dg", False))
+                self.call_ops.append((i, False, getattr(self.tls, "op", None)))
+                if sys._getframe(1).f_code.co_name == "digest":
+                    self.recycle_expected.append((i, [keynum(k) for k in res]))
+                return res
+            return dgw
+
         self.lys = L.Lysosome(max_queue_size=cfg["max"], auto_digest_threshold=cfg["thr"],
                               retention_hours=float(cfg["ret"]),
-                              digesters={t: dg for t in self.wt[:4]},
-                              on_toxic=on_toxic if cfg["cb"] else None, silent=True)
+                              digesters=None if self.dd else {t: dg for t in self.wt[:4]},
+                              on_toxic=on_toxic if cfg["cb"] else None, silent=not self.loud)
+        if self.dd:
+            for t in self.wt[:4]:
+                self.lys._digesters[t] = watch(self.lys._digesters[t])
 
     def close(self):
         with self.cv:
@@ -410,6 +558,45 @@ class Rig:
             if ps.thread is not None:
                 ps.thread.join(0.5)
         self.L.datetime, self.L.Waste = self.saved
+        if self.saved_ad is not None:
+            self.AD.Waste = self.saved_ad
+
+    def quiet(self):
+        """stdout of a silent=False lysosome (and daemon) goes to a buffer; self.printed = what was written"""
+        self.buf = io.StringIO()
+        return contextlib.redirect_stdout(self.buf) if self.loud else contextlib.nullcontext()
+
+    def get_daemon(self):
+        if self.daemon is None:
+            import operon_ai.healing.autophagy_daemon as AD
+            from operon_ai.state.histone import HistoneStore
+            self.AD, self.saved_ad = AD, AD.Waste
+            AD.Waste = _STANDINS["VWaste"]          # created_at of the item it flushes: the virtual clock
+            self.daemon = AD.AutophagyDaemon(histone_store=HistoneStore(silent=not self.loud), lysosome=self.lys,
+                                             summarizer=AD.create_simple_summarizer(4), min_tokens_for_pruning=10,
+                                             silent=not self.loud)
+        return self.daemon
+
+    def prune_call(self, i, mode):
+        """daemon.check_and_prune on a context made for `mode` -> None if it pruned exactly when it had to, else a string"""
+        d = self.get_daemon()
+        if mode == "tiny":
+            text = f"c{i}"
+        else:
+            mark = "Error: " if mode == "noisy" else ""
+            text = "\n".join(f"{mark}ctx {i} line {j} xxxxxxxx" if (j % 4 or not mark) else f"ctx {i} fine {j}" for j in range(10))
+        tokens = d.estimate_tokens(text)
+        mx = tokens if mode == "critical" else int(tokens / 0.7) if mode in ("noisy", "accum") else tokens * 10 + 10
+        self.by_content[id(text)] = i
+        self.keep.append(text)
+
+        def call():
+            new, res = d.check_and_prune(text, mx, force=mode in ("force", "tiny"))
+            d.stats()
+            d.assess_health(text, mx)
+            ok = (res is not None) == (mode in PRUNING) and isinstance(new, str) and (res is None or res.waste_items_flushed == 1)
+            return None if ok else f"daemon: mode {mode} returned {res!r}"
+        return call
 
     # -- overlapping passes ------------------------------------------------
     def maybe_park(self):
@@ -509,11 +696,15 @@ class Rig:
     def do(self, o, i):
         """the call for operation o; i = id (ingest event) for the item it ingests"""
         lys = self.lys
+        if self.dd and o[0] in ("twin", "again"):
+            raise ValueError("value-equal items are driven with scripted digesters only")
         if o[0] == "ingest":
-            self.outs[i], self.types[i] = o[3], o[1]
+            self.outs[i], self.types[i] = eff_out(self.cfg, o, i), o[1]
             content = {"v": o[4] if len(o) > 4 else i}
             if o[1] == TOXIC:
                 content["secret"] = True
+            elif self.dd:
+                content = dd_content(o[1], self.outs[i], i)
             w = self.RealWaste(waste_type=self.wt[o[1]], content=content, source="h",
                                created_at=self.VDatetime.now() + o[2] * HOUR)
             w._hev = [i]
@@ -534,11 +725,27 @@ class Rig:
             self.objs[i] = w
             return lambda: lys.ingest(w)
         if o[0] == "ierr":
-            self.outs[i], self.types[i] = o[1], 2
+            self.outs[i], self.types[i] = eff_out(self.cfg, o, i), 2
             ctx = {"v": o[2] if len(o) > 2 else i}
             self.by_content[id(ctx)] = i
             self.keep.append(ctx)
-            return lambda: lys.ingest_error(ValueError("e"), source="h", context=ctx)
+            exc = type(f"E{i}", (ValueError,), {})("e") if self.dd else ValueError("e")
+            return lambda: lys.ingest_error(exc, source="h", context=ctx)
+        if o[0] == "prune":         # the context-pruning daemon flushes a context into this lysosome (EXPIRED_CACHE) - or not
+            if o[2] in PRUNING:
+                self.outs[i], self.types[i] = eff_out(self.cfg, o, i), 1
+            return self.prune_call(i, o[2])
+        if o[0] == "peek":          # read-only accessors
+            name = (f"k{o[1]}" if not self.dd else DDNAMES[o[1]] if 0 <= o[1] < 3 else f"{ECOUNT}{o[1]}")
+
+            def peek():
+                lys.get_recycled(name)
+                lys.get_recycled("")
+                lys.get_statistics()
+                lys.get_queue_status()
+            return peek
+        if o[0] == "clear":
+            return lambda: lys.clear_recycling_bin()
         if o[0] == "isens":
             self.outs[i], self.types[i] = o[1], TOXIC
             data = {"v": o[2] if len(o) > 2 else i, "secret": True}
@@ -567,7 +774,7 @@ class Rig:
 
 
 def is_ingest(o):
-    return o[0] in ("ingest", "ierr", "isens", "twin", "again")
+    return o[0] in ("ingest", "ierr", "isens", "twin", "again") or (o[0] == "prune" and o[2] in PRUNING)
 
 
 def is_pass(o):
@@ -590,7 +797,15 @@ class C13(Check):
     N_QUICK = 700
     N_THOROUGH = 15000
     RULE = ("configurations max_queue_size 2..8 (3%: 1), auto_digest_threshold 1..10 (below, at and above capacity, 1), "
-            "retention 0..5 h, on_toxic set (85%) or None; histories of 1..14 calls (thorough: up to 30) over ingest of each "
+            "retention 0..5 h, on_toxic set (85%) or None, silent=False in 25-30% of the histories (stdout captured; every print path "
+            "runs), the DEFAULT digesters of lysosome.py (digesters=None) instead of scripted ones in 20-25% (contents crafted so that each "
+            "branch of _digest_misfolded / _digest_failed_op / _digest_orphaned / _digest_expired runs: keys extracted, nothing to extract, "
+            "non-dict content, cleanup() returning / raising, contents on which the digester itself raises; the item id is carried in what "
+            "they recycle); in between the other public methods of the object: clear_recycling_bin (modelled: ClearBin), "
+            "get_recycled(key) for present / absent keys + get_statistics / get_queue_status / get_recycled() after every call (transparent: "
+            "the model does nothing), and AutophagyDaemon.check_and_prune on the same lysosome (operon_ai/healing/autophagy_daemon.py; forced / "
+            "critical fill / noisy accumulating context = one ingest of an EXPIRED_CACHE item created now; healthy / accumulating / tiny "
+            "context = nothing), also while digest() calls of other threads are in progress; histories of 1..14 calls (thorough: up to 30) over ingest of each "
             "of the 5 waste types (created_at = virtual now + offset in -3..+1 h), ingest_error, ingest_sensitive, "
             "digest(None/0/1/2/3/5/-1/-2), autophagy, clock advance 0..3 h; every item carries a scripted digester outcome "
             "(raises 20% / returns {} / returns 1-3 keys from a small shared key space so that keys collide); 40% of the "
@@ -605,7 +820,9 @@ class C13(Check):
             "advances and steps of the other passes; digesters raise for 40% of the items; every call returns before the history ends. "
             "Exhaustive: every history of depth <=3 (quick) / <=5 (thorough; <=4 on the third) over a 7-call alphabet on 1 (quick) "
             "/ 3 (thorough) small configurations, plus every order (depth <=4 quick / <=6 thorough, at digester-call granularity) of two "
-            "overlapping digest() calls, complete digest() calls and ingests on 2 configurations with raising digesters. Validation only: 2 real threads x 1..3 calls on one Lysosome, random pre-fill (half of the runs: items whose digesters raise) and start "
+            "overlapping digest() calls, complete digest() calls and ingests on 2 configurations with raising digesters, plus every history of "
+            "depth <=2 (quick) / <=4 (thorough) over {ingest, ingest_error, daemon flush, clear_recycling_bin, get_recycled(key), digest} with "
+            "default digesters and silent=False. Validation only: 2 real threads x 1..3 calls on one Lysosome, random pre-fill (half of the runs: items whose digesters raise) and start "
             "offsets (300 quick / 4000 thorough runs). non-trivial = at least one item left the queue; distinct by case content")
     LEVEL_TEXT = ("Coq theorems over all configurations and all histories (no bound on length or sizes) about a hand-written "
                   "executable model of every method of Lysosome with a per-item digester-outcome oracle (returns keys | raises) "
@@ -638,7 +855,12 @@ class C13(Check):
                "they terminate, take no other lock and do not call back into the lysosome (they do run while self._lock is held "
                "on the ingest path: listed in the evidence as callbacks_under_lock)",
                "the TOXIC_BYPRODUCT digester is the default _digest_toxic (the toxic theorems are about it); the four other "
-               "default digesters are replaced by scripted ones in the correspondence (their behaviour is covered by the oracle)",
+               "default digesters are replaced by scripted ones in 75-80% of the histories (their behaviour is covered by the oracle) and "
+               "run as they are, observed through a wrapper installed after construction, in the rest: the outcome the model is given for "
+               "an item is then what its crafted content makes the default digester do (harness/c13.py eff_out / dd_content)",
+               "AutophagyDaemon.check_and_prune is driven with min_tokens_for_pruning=10, a HistoneStore and create_simple_summarizer(4); its "
+               "module-level Waste binding is put on the virtual clock like lysosome.Waste; whether it prunes is decided by the mode the "
+               "case names and checked against its PruneResult",
                "the retention_hours -> timedelta conversion is outside the model: the stored retention_period is read back from "
                "the object and compared with the model's configuration on every case (row 0)",
                "Waste.created_at's default factory (real datetime.now bound at import) is put on the virtual clock by rebinding "
@@ -724,7 +946,19 @@ class C13(Check):
             thr = rng.choice([mx + 1, mx + 1, mx + 2, 10])
         else:
             thr = rng.choice([1, 2, 2, 3, 3, 4, 5, 6, 7, 8, mx, mx, max(1, mx - 1)])
-        return {"max": mx, "thr": thr, "ret": rng.choice([0, 1, 1, 2, 2, 3, 5]), "cb": rng.random() < 0.85}
+        return {"max": mx, "thr": thr, "ret": rng.choice([0, 1, 1, 2, 2, 3, 5]), "cb": rng.random() < 0.85,
+                "loud": rng.random() < 0.3, "dd": rng.random() < 0.25}
+
+    @staticmethod
+    def _rand_prune(rng, out, pruning):
+        return ["prune", out, rng.choice(PRUNING if pruning else NOT_PRUNING)]
+
+    @staticmethod
+    def _rand_side(rng, i):
+        """calls of the other public methods of the object, in between"""
+        if rng.random() < 0.5:
+            return ["clear"]
+        return ["peek", rng.choice([0, 1, 2, 3, 4, 10 + max(0, i - 1), 1000 + max(0, i - 1)])]
 
     def _rand_op(self, rng, i, heavy):
         k = rng.random()
@@ -735,15 +969,21 @@ class C13(Check):
                 return ["ierr", self._rand_out(rng, i)]
             if j < 0.30:
                 return ["isens", self._rand_out(rng, i)]
+            if j < 0.37:
+                return self._rand_prune(rng, self._rand_out(rng, i), True)
             t = rng.choice([0, 1, 2, 3, 0, 1, 3, TOXIC])
             off = 0 if rng.random() < 0.7 else rng.choice([-1, -2, -3, 1])
             return ["ingest", t, off, self._rand_out(rng, i)]
         k = (k - ing) / (1 - ing)
-        if k < 0.45:
+        if k < 0.40:
             return ["digest", rng.choice([None, None, 0, 1, 1, 2, 3, 5, -1, -2])]
-        if k < 0.70:
+        if k < 0.60:
             return ["auto"]
-        return ["adv", rng.choice([0, 1, 1, 2, 3])]
+        if k < 0.80:
+            return ["adv", rng.choice([0, 1, 1, 2, 3])]
+        if k < 0.95:
+            return self._rand_side(rng, i)
+        return self._rand_prune(rng, None, False)
 
     def _rand_case(self, rng, maxlen):
         heavy = rng.random() < 0.4
@@ -763,7 +1003,8 @@ class C13(Check):
         ingest_sensitive / ingest_error repeat the same payload at the same virtual time; then partial digests
         (digest(1), digest(2)) and auto-digests of half the queue.  Items are counted by ingest event."""
         mx = rng.choice([3, 4, 5, 6, 8])
-        cfg = {"max": mx, "thr": rng.choice([3, 4, 4, 5, 6, 9, 10]), "ret": rng.choice([1, 2, 3, 5]), "cb": rng.random() < 0.9}
+        cfg = {"max": mx, "thr": rng.choice([3, 4, 4, 5, 6, 9, 10]), "ret": rng.choice([1, 2, 3, 5]), "cb": rng.random() < 0.9,
+               "loud": rng.random() < 0.25}
         n = rng.randint(4, maxlen)
         ops, i, direct = [], 0, []
         for _ in range(n):
@@ -784,8 +1025,10 @@ class C13(Check):
                 i += 1
             elif k < 0.85:
                 o = ["digest", rng.choice([1, 1, 2, 2, 3, None])]
-            elif k < 0.93:
+            elif k < 0.91:
                 o = ["auto"]
+            elif k < 0.95:
+                o = self._rand_side(rng, i)
             else:
                 o = ["adv", rng.choice([0, 1, 1, 2])]
             ops.append(o)
@@ -815,7 +1058,8 @@ class C13(Check):
         auto-digest threshold or capacity), complete digest(k) calls, autophagy, clock.  Digesters raise for 40% of the items."""
         mx = rng.choice([3, 4, 5, 6, 8, 8])
         thr = rng.choice([2, 3, 4, mx, mx + 1, 9, 10, 10])
-        cfg = {"max": mx, "thr": thr, "ret": rng.choice([1, 2, 3, 5]), "cb": True}
+        cfg = {"max": mx, "thr": thr, "ret": rng.choice([1, 2, 3, 5]), "cb": True,
+               "loud": rng.random() < 0.25, "dd": rng.random() < 0.2}
 
         def out(i):
             return None if rng.random() < 0.4 else self._rand_out(rng, i)
@@ -826,6 +1070,8 @@ class C13(Check):
                 return ["ierr", out(i)]
             if j < 0.35:
                 return ["isens", out(i)]
+            if j < 0.42:
+                return self._rand_prune(rng, out(i), True)
             return ["ingest", rng.choice([0, 1, 2, 3, TOXIC]), rng.choice([0, 0, 0, -1, -2]), out(i)]
         ops, i, q = [], 0, 0
         left = {}                    # label -> items the open call still has to process (estimate)
@@ -859,8 +1105,10 @@ class C13(Check):
                 kk = rng.choice([None, 1, 2])
                 ops.append(["digest", kk])
                 q -= self._sim_take(q, kk)
-            elif k < 0.97:
+            elif k < 0.96:
                 ops.append(["auto"])
+            elif k < 0.985:
+                ops.append(self._rand_side(rng, i))
             else:
                 ops.append(["adv", rng.choice([1, 2])])
         for p in sorted(left):       # every call returns before the history ends
@@ -894,7 +1142,18 @@ class C13(Check):
             for d in range(1, depth + 1 - (1 if n == 2 else 0)):
                 for combo in itertools.product(alpha, repeat=d):
                     out.append({"cfg": cfg, "ops": [list(o) for o in combo]})
-        return out + self._exhaustive_overlaps()
+        return out + self._exhaustive_overlaps() + self._exhaustive_wide()
+
+    WIDE_ALPHABET = [["ingest", 0, 0, [0, 1]], ["ierr", [0]], ["prune", [], "force"], ["clear"], ["peek", 0], ["digest", None],
+                     ["ingest", 3, 0, None]]
+
+    def _exhaustive_wide(self):
+        """every history of depth <=2 (quick) / <=4 (thorough) over the calls the widened generator adds (the daemon's flush,
+        clear_recycling_bin, get_recycled(key)) and ingests / digest, on a lysosome with the DEFAULT digesters and silent=False"""
+        cfg = {"max": 2, "thr": 3, "ret": 2, "cb": True, "loud": True, "dd": True}
+        depth = 2 if self.tier == "quick" else 4
+        return [{"cfg": cfg, "ops": [list(o) for o in combo]}
+                for d in range(1, depth + 1) for combo in itertools.product(self.WIDE_ALPHABET[:6 if self.tier == "quick" else 7], repeat=d)]
 
     def _exhaustive_overlaps(self):
         """every way two overlapping digest() calls (threads 0 and 1), complete digest() calls and ingests that reach the
@@ -960,110 +1219,116 @@ class C13(Check):
         rig = Rig(cfg)
         lys = rig.lys
         try:
-            rp = lys.retention_period
-            row0 = [lys.max_queue_size, lys.auto_digest_threshold,
-                    rp // HOUR if rp % HOUR == _dt.timedelta(0) else -12345, int(lys.on_toxic is not None)]
-            obs, steps = [row0], []
-            nid = 0
-            cum_rep = cum_silent = cum_exp = 0
-            open_labels = set()
-            for idx, o in enumerate(ops):
-                before = rig.queue_ids()
-                ncalls = len(rig.calls)
-                rig.begin_op()
-                paused, bad = False, False
-                if o[0] == "adv":
-                    rig.clock.t += o[1]
-                    ret, row = None, [0]
-                elif is_pass(o) and ((o[0] == "pbegin") == (o[1] in open_labels)):
-                    ret, row, bad = None, [-5], True        # label in use / no such pass: not a call
-                else:
-                    try:
-                        if o[0] == "pbegin":
-                            st = rig.pass_begin(o[1], o[2], self._timeout())
-                        elif o[0] == "pstep":
-                            st = rig.pass_step(o[1], self._timeout())
-                        else:
-                            st = None
-                            opt, box = _spawn(rig.do(o, nid))
-                            opt.join(self._timeout())
-                            if opt.is_alive():
-                                raise common.Hang()
-                            if "e" in box:
-                                raise box["e"]
-                            ret = box.get("r")
-                    except common.Hang:
-                        # with another thread parked inside a digester a call may legitimately WAIT for it (a digester is
-                        # assumed to return): let everything run; a hang is what is still stuck after that
-                        stuck = True
-                        if open_labels:
-                            stuck = not rig.settle(self._timeout())
-                            if not is_pass(o):
-                                opt.join(self._timeout())
-                                stuck = stuck or opt.is_alive()
-                        self.hangs_seen += 1 if stuck else 0
-                        self.waits_seen += 0 if stuck else 1
-                        obs.append([-999] if stuck else [-997])
-                        steps.append({"op": o, "hang": stuck, "waited": not stuck, "before": before,
-                                      "parked": sorted(open_labels)})
-                        return obs, {"steps": steps, "hang": stuck, "at": idx}
-                    if st is not None:
-                        ps = rig.passes[o[1]]
-                        if st == "parked":
-                            open_labels.add(o[1])
-                            paused, ret = True, None
-                        else:
-                            open_labels.discard(o[1])
-                            if ps.err is not None:
-                                raise ps.err
-                            ret = ps.ret
-                    if paused:
-                        row = [3]
-                    elif is_ingest(o):
-                        row = [0] if ret is None else [-7]
-                    elif o[0] in ("digest", "pbegin", "pstep"):
-                        rec = sorted((keynum(k), valnum(v)) for k, v in ret.recycled.items())
-                        eids = err_ids(ret.errors)
-                        row = [1, int(ret.success is True), ret.disposed, len(ret.errors)] + eids + [len(rec)] + [x for p in rec for x in p]
-                        cum_rep += len(ret.errors)
-                    else:
-                        row = [2, ret]
-                        cum_exp += ret
-                calls = rig.calls[ncalls:]
-                if is_ingest(o):
-                    cum_silent += sum(1 for c in calls if c[2])
-                st = lys.get_statistics()
-                qs = lys.get_queue_status()
-                after = rig.queue_ids()
-                pool = before + ([nid] if is_ingest(o) else [])
-                rig.end_op([x for x in pool if x not in after])
-                binraw = lys.get_recycled()
-                b = sorted((keynum(k), valnum(v)) for k, v in binraw.items())
-                row += [st["queue_size"], st["total_ingested"], st["total_digested"], st["total_recycled"]]
-                row += [st["by_type"].get(t, -1) for t in TVAL] + [st["recycling_bin_size"]]
-                row += [qs["size"], qs["capacity"]] + [qs["by_type"].get(t, 0) for t in TVAL]
-                row += [len(after)] + [(-1 if i is None else i) for i in after]
-                row += [len(b)] + [x for p in b for x in p]
-                row += [len(rig.toxlog)] + list(rig.toxlog)
-                row += [cum_rep, cum_silent, cum_exp]
-                obs.append(row)
-                steps.append({"op": o, "new": nid if is_ingest(o) else None, "before": before, "after": after,
-                              "calls": calls, "paused": paused, "bad": bad, "open": sorted(open_labels),
-                              "ret": (None if ret is None else
-                                      (ret if isinstance(ret, int) else
-                                       {"disposed": ret.disposed, "nerr": len(ret.errors),
-                                        "err_ids": err_ids(ret.errors),
-                                        "success": ret.success,
-                                        "recycled_refs": int_refs(ret.recycled.values()),
-                                        "recycled_secret": has_secret(ret.recycled)})),
-                              "stats": {k: st[k] for k in ("queue_size", "total_ingested", "total_digested", "total_recycled")},
-                              "qsize": qs["size"],
-                              "bin_refs": int_refs(binraw.values()), "bin_secret": has_secret(binraw)})
-                if is_ingest(o):
-                    nid += 1
-            return obs, {"steps": steps, "types": dict(rig.types), "toxlog": list(rig.toxlog)}
+            with rig.quiet():
+                return self._drive(rig, cfg, ops)
         finally:
             rig.close()
+
+    def _drive(self, rig, cfg, ops):
+        lys = rig.lys
+        rp = lys.retention_period
+        row0 = [lys.max_queue_size, lys.auto_digest_threshold,
+                rp // HOUR if rp % HOUR == _dt.timedelta(0) else -12345, int(lys.on_toxic is not None)]
+        obs, steps = [row0], []
+        nid = 0
+        cum_rep = cum_silent = cum_exp = 0
+        open_labels = set()
+        for idx, o in enumerate(ops):
+            before = rig.queue_ids()
+            ncalls = len(rig.calls)
+            rig.begin_op()
+            paused, bad = False, False
+            if o[0] == "adv":
+                rig.clock.t += o[1]
+                ret, row = None, [0]
+            elif is_pass(o) and ((o[0] == "pbegin") == (o[1] in open_labels)):
+                ret, row, bad = None, [-5], True        # label in use / no such pass: not a call
+            else:
+                try:
+                    if o[0] == "pbegin":
+                        st = rig.pass_begin(o[1], o[2], self._timeout())
+                    elif o[0] == "pstep":
+                        st = rig.pass_step(o[1], self._timeout())
+                    else:
+                        st = None
+                        opt, box = _spawn(rig.do(o, nid))
+                        opt.join(self._timeout())
+                        if opt.is_alive():
+                            raise common.Hang()
+                        if "e" in box:
+                            raise box["e"]
+                        ret = box.get("r")
+                except common.Hang:
+                    # with another thread parked inside a digester a call may legitimately WAIT for it (a digester is
+                    # assumed to return): let everything run; a hang is what is still stuck after that
+                    stuck = True
+                    if open_labels:
+                        stuck = not rig.settle(self._timeout())
+                        if not is_pass(o):
+                            opt.join(self._timeout())
+                            stuck = stuck or opt.is_alive()
+                    self.hangs_seen += 1 if stuck else 0
+                    self.waits_seen += 0 if stuck else 1
+                    obs.append([-999] if stuck else [-997])
+                    steps.append({"op": o, "hang": stuck, "waited": not stuck, "before": before,
+                                  "parked": sorted(open_labels)})
+                    return obs, {"steps": steps, "hang": stuck, "at": idx}
+                if st is not None:
+                    ps = rig.passes[o[1]]
+                    if st == "parked":
+                        open_labels.add(o[1])
+                        paused, ret = True, None
+                    else:
+                        open_labels.discard(o[1])
+                        if ps.err is not None:
+                            raise ps.err
+                        ret = ps.ret
+                if paused:
+                    row = [3]
+                elif is_ingest(o) or o[0] in ("prune", "peek", "clear"):
+                    row = [0] if ret is None else [-7]
+                elif o[0] in ("digest", "pbegin", "pstep"):
+                    rec = pairs(ret.recycled)
+                    eids = err_ids(ret.errors)
+                    row = [1, int(ret.success is True), ret.disposed, len(ret.errors)] + eids + [len(rec)] + [x for p in rec for x in p]
+                    cum_rep += len(ret.errors)
+                else:
+                    row = [2, ret]
+                    cum_exp += ret
+            calls = rig.calls[ncalls:]
+            if is_ingest(o):
+                cum_silent += sum(1 for c in calls if c[2])
+            st = lys.get_statistics()
+            qs = lys.get_queue_status()
+            after = rig.queue_ids()
+            pool = before + ([nid] if is_ingest(o) else [])
+            rig.end_op([x for x in pool if x not in after])
+            binraw = lys.get_recycled()
+            b = pairs(binraw)
+            row += [st["queue_size"], st["total_ingested"], st["total_digested"], st["total_recycled"]]
+            row += [st["by_type"].get(t, -1) for t in TVAL] + [st["recycling_bin_size"]]
+            row += [qs["size"], qs["capacity"]] + [qs["by_type"].get(t, 0) for t in TVAL]
+            row += [len(after)] + [(-1 if i is None else i) for i in after]
+            row += [len(b)] + [x for p in b for x in p]
+            row += [len(rig.toxlog)] + list(rig.toxlog)
+            row += [cum_rep, cum_silent, cum_exp]
+            obs.append(row)
+            steps.append({"op": o, "new": nid if is_ingest(o) else None, "before": before, "after": after,
+                          "calls": calls, "paused": paused, "bad": bad, "open": sorted(open_labels),
+                          "ret": (None if ret is None else
+                                  (ret if isinstance(ret, int) else repr(ret) if not hasattr(ret, "disposed") else
+                                   {"disposed": ret.disposed, "nerr": len(ret.errors),
+                                    "err_ids": err_ids(ret.errors),
+                                    "success": ret.success,
+                                    "recycled_refs": int_refs(ret.recycled),
+                                    "recycled_secret": has_secret(ret.recycled)})),
+                          "stats": {k: st[k] for k in ("queue_size", "total_ingested", "total_digested", "total_recycled")},
+                          "qsize": qs["size"],
+                          "bin_refs": int_refs(binraw), "bin_secret": has_secret(binraw)})
+            if is_ingest(o):
+                nid += 1
+        return obs, {"steps": steps, "types": dict(rig.types), "toxlog": list(rig.toxlog),
+                     "printed": len(rig.buf.getvalue())}
 
     # -- model input -------------------------------------------------------
     @staticmethod
@@ -1082,8 +1347,9 @@ class C13(Check):
             ops.append(f"Atomic ({x})")
         for o in case["ops"]:
             if o[0] == "ingest":
-                atomic(f"Ingest {TYPES[o[1]]} {cz(o[2])} {self._cout(o[3])}")
-                ev.append((o[1], t + o[2], o[3]))
+                out = eff_out(cfg, o, len(ev))
+                atomic(f"Ingest {TYPES[o[1]]} {cz(o[2])} {self._cout(out)}")
+                ev.append((o[1], t + o[2], out))
             elif o[0] == "twin":        # value-equal copy: same type and created_at, its own outcome
                 ty, cr, _ = ev[o[1]]
                 atomic(f"Ingest {TYPES[ty]} {cz(cr - t)} {self._cout(o[2])}")
@@ -1093,11 +1359,23 @@ class C13(Check):
                 atomic(f"Ingest {TYPES[ty]} {cz(cr - t)} {self._cout(out)}")
                 ev.append((ty, cr, out))
             elif o[0] == "ierr":
-                atomic(f"IngestError {self._cout(o[1])}")
-                ev.append((2, t, o[1]))
+                out = eff_out(cfg, o, len(ev))
+                atomic(f"IngestError {self._cout(out)}")
+                ev.append((2, t, out))
             elif o[0] == "isens":
                 atomic(f"IngestSensitive {self._cout(o[1])}")
                 ev.append((TOXIC, t, o[1]))
+            elif o[0] == "prune":       # the daemon's flush is an ingest of an EXPIRED_CACHE item created now; otherwise nothing
+                if o[2] in PRUNING:
+                    out = eff_out(cfg, o, len(ev))
+                    atomic(f"Ingest ExpiredCache 0 {self._cout(out)}")
+                    ev.append((1, t, out))
+                else:
+                    atomic("Advance 0")
+            elif o[0] == "peek":        # read-only accessors are transparent: the model does nothing, every later row is compared
+                atomic("Advance 0")
+            elif o[0] == "clear":
+                atomic("ClearBin")
             elif o[0] == "digest":
                 atomic(f"DigestOp {copt(o[1])}")
             elif o[0] == "auto":
@@ -1153,7 +1431,7 @@ class C13(Check):
             label = o[1] if is_pass(o) else None
             if new is not None:
                 ningested += 1
-                types[new] = (TOXIC if o[0] == "isens" else 2 if o[0] == "ierr" else
+                types[new] = (TOXIC if o[0] == "isens" else 2 if o[0] == "ierr" else 1 if o[0] == "prune" else
                               types[o[1]] if o[0] in ("twin", "again") else o[1])
             # bounded queue
             if cfg["max"] >= 2 and len(after) > cfg["max"]:
@@ -1287,6 +1565,15 @@ class C13(Check):
             ks.append("thr=1")
         if any(o[0] in ("twin", "again") for o in case["ops"]):
             ks.append("value-equal-items")
+        if cfg.get("dd"):
+            ks.append("default-digesters")
+        if cfg.get("loud"):
+            ks.append("silent=False" + (":printed" if isinstance(trace, dict) and trace.get("printed") else ""))
+        for o in case["ops"]:
+            if o[0] == "prune":
+                ks.append("daemon:" + o[2])
+            elif o[0] in ("peek", "clear"):
+                ks.append({"peek": "get_recycled(key)", "clear": "clear_recycling_bin"}[o[0]])
         if not isinstance(trace, dict):
             return ks
         if any(is_pass(o) for o in case["ops"]):
@@ -1370,6 +1657,7 @@ class C13(Check):
     def _thread_case(self, rng):
         cfg = self._rand_cfg(rng, rng.random() < 0.4)
         cfg["cb"] = True
+        cfg["dd"] = False          # the final-state check reads the scripted digesters' bookkeeping
         pre = rng.randint(0, max(0, min(cfg["max"], cfg["thr"]) - 1)) if rng.random() < 0.7 else 0
 
         def op(i):
@@ -1378,6 +1666,8 @@ class C13(Check):
                 return self._rand_op(rng, i, True) if rng.random() < 0.8 else ["isens", self._rand_out(rng, i)]
             if k < 0.85:
                 return ["digest", rng.choice([None, 1, 2, 0])]
+            if k < 0.89:
+                return ["peek", rng.choice([0, 1, 2, 3])]
             return ["auto"]
         ths = []
         i = pre
@@ -1385,7 +1675,7 @@ class C13(Check):
             ops = []
             for _ in range(rng.randint(1, 3)):
                 o = op(i)
-                while o[0] == "adv":
+                while o[0] in ("adv", "clear"):       # clear_recycling_bin would void the final-state check of the bin
                     o = op(i)
                 ops.append(o)
                 i += 1            # ids are reserved per slot whether or not the op ingests
@@ -1444,7 +1734,7 @@ class C13(Check):
                                                  + (f"disposed counts add up to {n_disp}" if n_disp != ok_dig else ""))
         if n_ing != len(q) + n_ok + n_raise + n_exp:
             return Violation("C13/conservation", f"{desc}: {n_ing} ingested != {len(q)} queued + {n_ok} digested + {n_raise} errors + {n_exp} expired")
-        for v in int_refs(lys.get_recycled().values()):
+        for v in int_refs(lys.get_recycled()):
             if rig.types.get(v) == TOXIC:
                 return Violation("C13/toxic-recycled", f"{desc}: recycling bin refers to sensitive item {v}")
         if has_secret(lys.get_recycled()):
@@ -1470,7 +1760,8 @@ class C13(Check):
         try:
             nid = 0
             for po in self._pre_ops(tc):
-                rig.do(po, nid)()
+                with rig.quiet():
+                    rig.do(po, nid)()
                 nid += 1
             fns, rets = [], [[], []]
             n_ing = tc["pre"]
@@ -1501,7 +1792,8 @@ class C13(Check):
                 for t in ts:
                     t.join()
             try:
-                common.call_with_watchdog(both, self._timeout())
+                with rig.quiet():
+                    common.call_with_watchdog(both, self._timeout())
             except common.Hang:
                 self.hangs_seen += 1
                 return Violation("C13/hang", f"two threads {tc['threads']} after {tc['pre']} ingests on max_queue_size={cfg['max']} "
@@ -1566,7 +1858,8 @@ class C13(Check):
         try:
             nid = 0
             for po in self._pre_ops(tc):
-                rig.do(po, nid)()
+                with rig.quiet():
+                    rig.do(po, nid)()
                 nid += 1
             # EVERY lock the object owns becomes a scheduler-aware lock of the same reentrancy
             info = {"locks": [], "wants": {}, "snap": None}
@@ -1594,7 +1887,8 @@ class C13(Check):
                             return
                 fns.append(run)
             try:
-                common.call_with_watchdog(lambda: s.run(fns), 20.0)
+                with rig.quiet():
+                    common.call_with_watchdog(lambda: s.run(fns), 20.0)
             except common.Hang:
                 return Violation("C13/hang", f"scheduled threads {tc['threads']}: the run did not finish (a thread blocks on "
                                              f"something the scheduler does not control); schedule prefix {prefix}"), s
